@@ -352,7 +352,11 @@ def run_history(env, rng, peers, n_sessions, steps, oversize_bias=0.08, reply_bi
             bt = (s.peer.state.boots, s.peer.state.time) if v3 else None
             if rng.random() < 0.25:
                 # a well-formed datagram that does not answer this request arrives first; it announces another clock
-                if v3:
+                if v3 and rng.random() < 0.4:
+                    # a Report from another engine behind the same address (right user and msgID): not for this session
+                    other = bytes(rng.getrandbits(8) for _ in range(rng.choice([5, 12, 17])))
+                    stray = s.peer.response(req, [], pdu_tag=8, engine_id=other, boots=4242, time=4343)
+                elif v3:
                     stray = s.peer.response(req, vbs, msg_id=(req["msg_id"] + 1) % 2 ** 31, boots=77777, time=88888)
                 else:
                     stray = s.peer.response(req, vbs, request_id=(req["request_id"] + 1) % 2 ** 31)
@@ -401,8 +405,10 @@ def rand_v3_peer(rng, auth=None, priv=None, discover=False, kt=None):
     kts = ["password", "master", "localized"]
     akt = kt or rng.choice(kts)
     pkt = kt or rng.choice(kts)
-    apw = bytes(rng.getrandbits(8) for _ in range(rng.choice([1, 8, 13, 64, 100])))
-    ppw = bytes(rng.getrandbits(8) for _ in range(rng.choice([1, 8, 13, 64, 100])))
+    # secrets are often reused: by several users of one process, for both keys of a user, with different digests
+    POOL = [b"authpassword", b"privpassword", b"maplesyrup", b"x", b"s3cr3t-s3cr3t-s3cr3t"]
+    apw = rng.choice(POOL) if rng.random() < 0.5 else bytes(rng.getrandbits(8) for _ in range(rng.choice([1, 8, 13, 64, 100])))
+    ppw = rng.choice(POOL) if rng.random() < 0.5 else bytes(rng.getrandbits(8) for _ in range(rng.choice([1, 8, 13, 64, 100])))
     boots = rng.choice([0, 1, 127, 128, 255, 256, 65535, 65536, 2 ** 24, 2 ** 31 - 1])
     time = rng.choice([0, 1, 127, 128, 32767, 32768, 2 ** 23, 2 ** 31 - 1, rng.getrandbits(31)])
     return e2e.Peer("v3", auth=auth, priv=priv, engine_id=eng, user=user, auth_pw=apw, priv_pw=ppw,
